@@ -321,98 +321,3 @@ Print Assumptions C13_internal_angle_not_larger_partial.
 Print Assumptions C13_internal_angle_not_larger_builtin.
 Print Assumptions C13_config_external_order.
 Print Assumptions C13_config_internal_angles.
-
-(* ---- composition with the generated kinematics / wrappers / grid-resolution / simple phase-matching models (Proofs/Compose_*.v) ---- *)
-From Coquelicot Require Import Coquelicot.
-From SpdVerif Require Import Gen.Kinematics Proofs.Compose_kinematics Proofs.Compose_kinematics_links Proofs.Compose_kinematics_examples.
-
-(* The kinematic accessors of Beam (effective_index_of_refraction, phase_velocity, group_velocity, group_index, average_transit_time),
-   translated from src/beam/mod.rs into Gen/Kinematics.v with index = CrystalSetup::index_along (any function), omega, d, p the beam's
-   frequency, unit direction and polarization; the `_off` definitions are the bodies with PeriodicPoling::Off.
-   lam omega = 2 pi c / omega; n_at = index at that wavelength; slope = math::derivative_at of the index in the wavelength, the central
-   difference with step eps^(1/3) |lambda| (kin_slope_is_central_difference). *)
-
-(* group index as the code computes it: n / (1 + (lambda / n) D) *)
-Theorem C13_group_index_form : forall index omega d p,
-  n_at index omega d p <> 0 -> 1 + lam omega / n_at index omega d p * slope index omega d p <> 0 ->
-  beam_group_index_off_gen index omega d p = n_at index omega d p / (1 + lam omega / n_at index omega d p * slope index omega d p).
-Proof. exact kin_group_index_off. Qed.
-Print Assumptions C13_group_index_form.
-
-(* group velocity times group index is c, unpoled and poled *)
-Theorem C13_group_velocity_times_group_index : forall index omega d p,
-  beam_group_velocity_off_gen index omega d p <> 0 ->
-  beam_group_velocity_off_gen index omega d p * beam_group_index_off_gen index omega d p = light_speed.
-Proof. exact kin_vg_ng_off. Qed.
-Print Assumptions C13_group_velocity_times_group_index.
-
-Theorem C13_group_velocity_times_group_index_poled : forall index omega d p period,
-  beam_group_velocity_gen index omega d p period <> 0 ->
-  beam_group_velocity_gen index omega d p period * beam_group_index_gen index omega d p period = light_speed.
-Proof. exact kin_vg_ng_on. Qed.
-Print Assumptions C13_group_velocity_times_group_index_poled.
-
-(* average transit time: half the crystal length along the beam, (L/2)/|cos theta|, over the group velocity *)
-Theorem C13_average_transit_time : forall index omega d p period L,
-  unit_vec d -> vz d <> 0 -> 0 <= L ->
-  beam_average_transit_time_gen index omega d p L period = (0.5 * L / Rabs (vz d)) / beam_group_velocity_gen index omega d p period.
-Proof. exact kin_transit_time_on. Qed.
-Print Assumptions C13_average_transit_time.
-
-Theorem C13_average_transit_time_unpoled : forall index omega d p L,
-  unit_vec d -> vz d <> 0 -> 0 <= L ->
-  beam_average_transit_time_off_gen index omega d p L = (0.5 * L / Rabs (vz d)) / beam_group_velocity_off_gen index omega d p.
-Proof. exact kin_transit_time_off. Qed.
-Print Assumptions C13_average_transit_time_unpoled.
-
-(* positive index and a finite-difference dispersion above -n/lambda: the three kinematic quantities are positive *)
-Theorem C13_kinematics_positive : forall index omega d p,
-  0 < n_at index omega d p -> -1 < lam omega / n_at index omega d p * slope index omega d p ->
-  0 < beam_phase_velocity_off_gen index omega d p /\ 0 < beam_group_velocity_off_gen index omega d p /\
-  0 < beam_group_index_off_gen index omega d p.
-Proof. exact kin_positive_off. Qed.
-Print Assumptions C13_kinematics_positive.
-
-(* OBSERVATION.  The code's group velocity v_p (1 + (lambda/n) dn/dlambda) is the first-order expansion of the textbook
-   c / (n - lambda dn/dlambda): their product with the textbook group index misses c by the relative amount (lambda D / n)^2 *)
-Theorem C13_group_velocity_is_first_order : forall index omega d p,
-  n_at index omega d p <> 0 ->
-  beam_group_velocity_off_gen index omega d p * (n_at index omega d p - lam omega * slope index omega d p) =
-  light_speed * (1 - (lam omega * slope index omega d p / n_at index omega d p) ^ 2).
-Proof. exact kin_group_velocity_vs_textbook. Qed.
-Print Assumptions C13_group_velocity_is_first_order.
-
-(* the finite difference against the derivative: for an index three times differentiable in the wavelength with third derivative
-   bounded by M, |D - n'(lambda)| <= M h^2 / 6, h = fd_step_gen lambda = eps^(1/3) |lambda|.  PARTIAL: the bound on the third derivative
-   of the built-in index functions is not proved. *)
-Theorem C13_dispersion_finite_difference_partial : forall index omega d p M,
-  (forall t k, (k <= 3)%nat -> ex_derive_n (fun lm => index lm d p) k t) ->
-  (forall t, Rabs (Derive_n (fun lm => index lm d p) 3 t) <= M) ->
-  Rabs (slope index omega d p - Derive (fun lm => index lm d p) (lam omega)) <= M * fd_step_gen (lam omega) ^ 2 / 6.
-Proof. exact kin_slope_vs_derivative. Qed.
-Print Assumptions C13_dispersion_finite_difference_partial.
-
-(* with the generated index of a built-in crystal (C01 bounds 1 < n < 4 through C02's index_along): c/4 < v_p < c *)
-Theorem C13_phase_velocity_builtin : forall c T theta phi omega d p,
-  in_window c (lam omega / 1e-6) -> temp_ok T -> unit_vec d ->
-  light_speed / 4 < beam_phase_velocity_off_gen (crystal_index_m c T theta phi) omega d p < light_speed.
-Proof. exact kin_crystal_phase_velocity. Qed.
-Print Assumptions C13_phase_velocity_builtin.
-
-(* non-vacuity: an extraordinary beam along z in a dispersion-free medium of index 7/4 satisfies the hypotheses of the theorems above
-   (group index 7/4, non-zero group velocity); a constant index satisfies the smoothness hypotheses with M = 0; 1.55 um in KTP at 20 C *)
-Example C13_kinematics_example : forall w, 0 < w ->
-  n_at ex_index w ez Extraordinary <> 0 /\ 0 < n_at ex_index w ez Extraordinary /\
-  1 + lam w / n_at ex_index w ez Extraordinary * slope ex_index w ez Extraordinary <> 0 /\
-  -1 < lam w / n_at ex_index w ez Extraordinary * slope ex_index w ez Extraordinary /\
-  beam_group_index_off_gen ex_index w ez Extraordinary = 7 / 4 /\
-  beam_group_velocity_off_gen ex_index w ez Extraordinary <> 0.
-Proof. exact kin_basic_nonvacuous. Qed.
-Example C13_kinematics_smooth_example : forall d p,
-  (forall t k, (k <= 3)%nat -> ex_derive_n (fun lm => ex_index lm d p) k t) /\
-  (forall t, Rabs (Derive_n (fun lm => ex_index lm d p) 3 t) <= 0).
-Proof. exact kin_smooth_nonvacuous. Qed.
-Example C13_kinematics_direction_example : unit_vec ez /\ vz ez <> 0 /\ 0 <= 0.002.
-Proof. exact kin_hom_nonvacuous. Qed.
-Example C13_kinematics_builtin_example : in_window KTP (lam ex_omega / 1e-6) /\ temp_ok 20 /\ unit_vec ez.
-Proof. exact kin_builtin_nonvacuous. Qed.
